@@ -727,6 +727,7 @@ type world struct {
 	// model-side counts of direct operations on the real backend (C18)
 	extDeleted, extExpired, prepWrites, prefailWrites int
 	extExpiredSlack                                   int // entries already expired when an external ExpireAll ran
+	extWrites                                         int // external writes of neighbour keys (ctlOpts.extCleanup)
 }
 
 func newWorld(c *Case, cfg foCfg) *world {
@@ -1098,6 +1099,7 @@ type ctlOpts struct {
 	external   int             // max external backend ops (ExpireAll / Delete)
 	maxSteps   int
 	afterStep  func() // invariant hook, runs on the controller goroutine after every step
+	extCleanup bool   // external ops include "a cleanup cycle of the real backend, then writes of other keys into the shards of the scenario's keys"
 }
 
 // runSchedule starts the gets in order at generated points and schedules all call-outs until
@@ -1210,9 +1212,39 @@ func (w *world) runSchedule(gets []*getSpec, o ctlOpts) bool {
 		case 4:
 			o.external--
 
-			extKind := c.Weighted("ext-kind", 3, 3, 2, 1)
+			wCleanup := 0
+			if o.extCleanup {
+				wCleanup = 3
+			}
 
-			if extKind == 2 {
+			extKind := c.Weighted("ext-kind", 3, 3, 2, 1, wCleanup)
+
+			if extKind == 4 {
+				// the backend's janitor runs a cycle (entries expired longer than its DeleteExpiredAfter go), then
+				// somebody writes other keys that live in the same shards as the keys of the scenario
+				w.be.Cleanup()
+
+				seen := map[string]bool{}
+
+				for _, g := range gets {
+					if seen[string(g.key)] {
+						continue
+					}
+
+					seen[string(g.key)] = true
+
+					for j := 0; j < 2; j++ {
+						nb := shardNeighbour(g.key, j)
+						w.extWrites++
+						tok := tokenFor(nb, "ext", w.extWrites)
+						_ = w.be.Write(ttlCtx(time.Hour), nb, tok)
+						w.log.noteStored(string(nb), tok)
+					}
+				}
+
+				c.Tracef("[%d] external cleanup cycle of the backend, then writes of same-shard neighbours", s.step)
+				c.Class("external-cleanup-and-neighbour-writes")
+			} else if extKind == 2 {
 				// the caller of a Get that is under way cancels its context (a builder may take long)
 				g := gets[c.Pick("cancel-get", next)]
 				if g.cancelFn != nil {
